@@ -48,7 +48,7 @@ def main():
         shutil.copytree(os.path.join(seed, "demo"), os.path.join(src, "seed", "m", "demo"))
         denv = dict(os.environ, NEVER=os.path.join(src, "_build", "never"), NEVER_BIN=os.path.join(src, "_build", "never"),
                     NEVER_PATH="%s/sample/lib:%s/sample" % (src, src))
-        rc_without, out_without = sh("sh seed/m/demo/run.sh", cwd=src, env=denv, timeout=600)
+        rc_without, out_without = sh("chmod +x seed/m/demo/run.sh; ./seed/m/demo/run.sh", cwd=src, env=denv, timeout=600)
         # with the patch
         rc, out = sh("git apply --whitespace=nowarn %s" % os.path.join(seed, "patch.diff"), cwd=src)
         if rc != 0:
@@ -56,7 +56,7 @@ def main():
             meta["applies"] = False
             return 2
         ok1, t1 = build_and_test(src)
-        rc_with, out_with = sh("sh seed/m/demo/run.sh", cwd=src, env=denv, timeout=600)
+        rc_with, out_with = sh("chmod +x seed/m/demo/run.sh; ./seed/m/demo/run.sh", cwd=src, env=denv, timeout=600)
         meta.update({"applies": True, "tests_pass_without": ok0, "tests_pass_with": ok1,
                      "demo_without": {"rc": rc_without, "tail": out_without[-300:]},
                      "demo_with": {"rc": rc_with, "tail": out_with[-300:]}})
